@@ -10,6 +10,7 @@
 From AV.Model Require Import Base Bytes Vec.
 From AV.Spec Require Import VecSpec.
 From AV.Proofs Require Import MemLemmas Rep VecProofs CloneProofs.
+From AV.Proofs Require Import LazySplice.
 
 Theorem C09_push :
   forall (c : cfg) (v : vec) (u : uw) (xs : list N) (bs : mem) (t0 : N) (k : bool),
@@ -59,6 +60,74 @@ Theorem C09_push_panics :
            unext u' = unext u /\
            ufuse u' = None /\ uevents u' = uevents u /\ vbk v' = vbk v /\ (vlen v < vcap v -> vcap v' = vcap v).
 Proof. exact push_clone_panics. Qed.
+
+(** splice as a consumption of lazy clones: the fill loop of Splice::drop - min(announced, delivered) new values, one Clone each, in order *)
+Theorem C09_splice_fill_lazy :
+  forall (c : cfg) (budget : nat) (srcs : list N) (p : nat) (w : N) (v : vec) (u : uw),
+         Forall (tok_ok (szn c)) srcs ->
+         store_ok c v ->
+         N.of_nat (p + Nat.min budget (length srcs)) <= vcap v ->
+         ufuse u = None ->
+         let m := Nat.min budget (length srcs) in
+         let ids := fresh_ids c (unext u) m in
+         exists u' : uw,
+           Ops.splice_fill c (p * szn c) budget w (map (lazy_item c) srcs) (v, u) =
+           Ok (w + N.of_nat m, map (lazy_item c) (skipn budget srcs))
+             (with_mem (mwrite (p * szn c) (flat (szn c) ids) (vmem v)) v, u') /\
+           unext u' = unext u + N.of_nat m /\
+           ufuse u' = None /\
+           ulog u' =
+           (if (length srcs <? budget)%nat then [ENext] else []) ++
+           rev (lazy_fill_events (firstn budget srcs) ids) ++ ulog u.
+Proof. exact splice_fill_lazy. Qed.
+
+(** ... and the whole of Splice::drop: the vector holds the prefix, the new values, the tail; the events are the destructors of the un-yielded part of the range, then ENext; EClone src id for every item taken (one more ENext when the iterator runs dry before the announced length); items never asked for are dropped without effect; nothing else is cloned or destroyed *)
+Theorem C09_splice_consumes_lazy_clones :
+  forall (c : cfg) (v : vec) (u : uw) (xs : list N) (s e i j : nat) (known : bool) 
+           (srcs : list N) (cl : nat),
+         cfg_wf c ->
+         RangeProofs.RangeAlive c v xs s e i j ->
+         ufuse u = None ->
+         Forall (tok_ok (szn c)) srcs ->
+         let new_len := (s + cl + (length xs - e))%nat in
+         N.of_nat new_len <= vcap v \/ grow_ok c v (N.of_nat new_len) ->
+         let d :=
+           {|
+             Ops.dcur := {| Ops.ci := N.of_nat i; Ops.ce := N.of_nat j |};
+             Ops.dstart := N.of_nat s;
+             Ops.dend := N.of_nat e;
+             Ops.dorig := N.of_nat (length xs)
+           |} in
+         let written := Nat.min cl (length srcs) in
+         let ids := fresh_ids c (unext u) written in
+         exists (v' : vec) (u' : uw),
+           Ops.splice_drop c known d (N.of_nat cl) (map (lazy_item c) srcs) (v, u) = Ok tt (v', u') /\
+           Rep c v' (sp_splice s e ids xs) /\
+           vbk v' = vbk v /\
+           unext u' = unext u + N.of_nat written /\
+           ufuse u' = None /\
+           uevents u' =
+           (if (length srcs <? cl)%nat then [ENext] else []) ++
+           rev (lazy_fill_events (firstn cl srcs) ids) ++
+           (if c_dg c then rev (map EDrop (firstn (j - i) (skipn i xs))) else []) ++ uevents u /\
+           (N.of_nat new_len <= vcap v -> vcap v' = vcap v).
+Proof. exact splice_drop_lazy. Qed.
+
+(** non-vacuity *)
+Theorem C09_splice_lazy_example :
+  let c := {| c_sz := 3; c_al := 1; c_dg := true; c_cl := true; c_trap := true; c_ty := 1 |} in
+         let m := flat 3 [1; 2; 3; 4] ++ uninit 12 in
+         let v := {| vlen := 1; vcap := 8; vmem := m; vgen := 0; vbk := BHeap |} in
+         let u := {| ulog := []; unext := 10; ufuse := None |} in
+         let d :=
+           {| Ops.dcur := {| Ops.ci := 1; Ops.ce := 3 |}; Ops.dstart := 1; Ops.dend := 3; Ops.dorig := 4 |} in
+         match Ops.splice_drop c false d 2 (map (lazy_item c) [7; 8]) (v, u) with
+         | Ok _ (v', u') =>
+             snapshot c v' = Some [1; 10; 11; 4] /\
+             rev (ulog u') = [EDrop 2; EDrop 3; ENext; EClone 7 10; ENext; EClone 8 11]
+         | _ => False
+         end.
+Proof. exact splice_drop_lazy_example. Qed.
 
 
 (* ---- histories ---- *)
@@ -125,6 +194,9 @@ Proof. exact exec_lazy_down. Qed.
 Print Assumptions C09_push.
 Print Assumptions C09_insert.
 Print Assumptions C09_push_panics.
+Print Assumptions C09_splice_fill_lazy.
+Print Assumptions C09_splice_consumes_lazy_clones.
+Print Assumptions C09_splice_lazy_example.
 Print Assumptions C09_raw_action_clone.
 Print Assumptions C09_lazy_offer_in_histories.
 Print Assumptions C09_user_lazy_offer_in_histories.
